@@ -311,7 +311,20 @@ func (p *c14) Run(w *lib.Worker, idx int, r *lib.Rand) lib.Case {
 			}
 			return
 		}
-		switch r.Intn(14) {
+		switch r.Intn(15) {
+		case 14:
+			// JSON-like arrays of mixed kinds: scalars first, containers later (and the other way round)
+			pool := []interface{}{"plain", "plain", 1.0, true, nil, map[string]interface{}{"fancy": true}, map[string]interface{}{"fancy": true},
+				[]interface{}{1.0}, []interface{}{1.0}, map[string]interface{}{}, []interface{}{}, "other"}
+			n := r.Range(2, 5)
+			xs := make([]interface{}, n)
+			for i := range xs {
+				xs[i] = pool[r.Intn(len(pool))]
+			}
+			if r.P(0.5) {
+				xs[0] = pool[r.Intn(5)] // a scalar (or null) in front
+			}
+			data = xs
 		case 11:
 			// pointer items: deep value equality looks through pointers (distinct pointers to equal values are duplicates)
 			a, b, c3 := c14Strings[r.Intn(4)], c14Strings[r.Intn(4)], c14Strings[r.Intn(4)]
